@@ -38,7 +38,7 @@ def run(rep, tier, seed, rng):
         if r["tags"] & {"crash", "rc", "predicted-panic"}:
             ndis += 1
             rep.violation("model and implementation disagree on the outcome: " + "; ".join(r["dis"])[:400],
-                          gen_common.replay_data(r), found_input=False)
+                          gen_common.replay_data(r), found_input=("crash" in r["tags"]))
             continue
         if r["impl_parsed"] and r["model_parsed"]:
             ci = ninja_parse.commands(r["impl_parsed"]); cm = ninja_parse.commands(r["model_parsed"])
